@@ -19,7 +19,7 @@ type c05 struct{}
 func (c05) ID() string    { return "C05" }
 func (c05) Level() string { return "exploration" }
 func (c05) Rule() string {
-	return "target service decomposed into chains of 1..3 bases (4 thorough) x every assignment of link kinds {same file, other file same directory, other file in a sub-directory, other file in a sibling directory} x naming {distinct names, base named like the extending service where files differ} x placement of each of 7 attributes (scalar, KEY=VALUE, plain sequence, wholesale command, build context, env_file, bind volume) on every non-empty subset of chain positions (one attribute varied at a time, and all together); every declaration-order permutation of same-file services and 8 uniform map-iteration rotations; sibling services sharing a base; all cyclic chains of length 1..4 over same/other file; missing base service and missing file. Oracle: flattening reference (most derived wins, keys merge, sequences append base-first, paths anchored on the directory of the file that wrote them), no extends left, errors for cycles/missing. distinct = distinct (chain shape, placement) pairs"
+	return "target service decomposed into chains of 1..3 bases (4 thorough) x every assignment of link kinds {same file, other file same directory, other file in a sub-directory, other file in a sibling directory} x naming {distinct names, base named like the extending service where files differ} x file references {relative; all absolute} x placement of each of 7 attributes (scalar, KEY=VALUE, plain sequence, wholesale command, build context, env_file, bind volume) on every non-empty subset of chain positions (one attribute varied at a time, and all together); every declaration-order permutation of same-file services and 8 uniform map-iteration rotations; sibling services sharing a base; all cyclic chains of length 1..4 over same/other file; missing base service and missing file. Oracle: flattening reference (most derived wins, keys merge, sequences append base-first, paths anchored on the directory of the file that wrote them), no extends left, errors for cycles/missing. distinct = distinct (chain shape, placement) pairs"
 }
 func (c05) Assumptions() []string {
 	return []string{"reference flattening in props/c05.go follows the override rules of the statement for the 7 attribute kinds used"}
@@ -30,6 +30,7 @@ var c05attrs = []string{"hostname", "environment", "security_opt", "command", "b
 type c05chain struct {
 	links []int // kind of link i: position i extends position i+1; 0 same file, 1 other file same dir, 2 sub-dir, 3 sibling dir
 	same  bool  // base named like the extending service where the link crosses files
+	abs   bool  // cross-file references written as absolute paths (<ROOT> is replaced once the scenario directory exists)
 }
 
 // layout computes, for each chain position, its file (relative to root) and service name.
@@ -49,7 +50,8 @@ func (ch c05chain) layout() (files []string, names []string) {
 		case 2:
 			files[i+1] = filepath.Join(dir, fmt.Sprintf("sub%d", i+1), fmt.Sprintf("f%d.yaml", i+1))
 		case 3:
-			files[i+1] = filepath.Join(filepath.Dir(dir), fmt.Sprintf("lib%d", i+1), fmt.Sprintf("f%d.yaml", i+1))
+			// a sibling directory whose name starts with this directory's name (proj -> proj-lib1): a sibling, not a child
+			files[i+1] = filepath.Join(filepath.Dir(dir), fmt.Sprintf("%s-lib%d", filepath.Base(dir), i+1), fmt.Sprintf("f%d.yaml", i+1))
 		}
 		names[i+1] = fmt.Sprintf("s%d", i+1)
 		if ch.same && ch.links[i] != 0 {
@@ -81,6 +83,9 @@ func c05build(ch c05chain, carries map[string]uint, perm []int) (*Scn, map[strin
 				rel, _ := filepath.Rel(filepath.Dir(files[i]), files[i+1])
 				if !strings.HasPrefix(rel, ".") {
 					rel = "./" + rel
+				}
+				if ch.abs {
+					rel = "<ROOT>/" + files[i+1]
 				}
 				fmt.Fprintf(&sb, "    extends: {file: %s, service: %s}\n", rel, names[i+1])
 			}
@@ -292,7 +297,7 @@ func (c05) Run(c *core.Ctx) {
 				if same && !crosses {
 					continue
 				}
-				ch := c05chain{links, same}
+				ch := c05chain{links: links, same: same}
 				npos := uint(L + 1)
 				full := uint(1)<<npos - 1
 				// placements: vary one attribute over all non-empty subsets (others everywhere), and all attributes on each subset
@@ -346,11 +351,37 @@ func (c05) Run(c *core.Ctx) {
 						return core.Outcome{Class: id, Sample: sample}
 					})
 				}
-				// order independence: permutations of declaration order x uniform rotations (all attributes everywhere)
 				allC := map[string]uint{}
 				for _, a := range c05attrs {
 					allC[a] = full
 				}
+				if crosses {
+					// the same chain with every cross-file reference spelled as an absolute path
+					chA := ch
+					chA.abs = true
+					id := fmt.Sprintf("chain-abs/%v/same%v", links, same)
+					c.Do(id, func() core.Outcome {
+						s, _ := c05build(chA, allC, nil)
+						root := s.Materialise()
+						for k, v := range s.Files {
+							s.Files[k] = strings.ReplaceAll(v, "<ROOT>", root)
+						}
+						s.MaterialiseAt(root)
+						p, err := s.LoadAt(root)
+						sample := map[string]any{"chain": id, "files": s.Files}
+						if err != nil {
+							if pe, ok := err.(*core.PanicError); ok {
+								return core.Outcome{Class: "panic", Sample: sample, Viol: &core.Violation{Key: "panic@" + pe.Site, Msg: id + ": " + pe.Error(), Detail: pe.Stack}}
+							}
+							return core.Outcome{Class: "err", Sample: sample, Viol: &core.Violation{Key: "chain-rejected:absolute-file-reference", Msg: id + ": an acyclic extends chain with absolute file references is rejected: " + err.Error()}}
+						}
+						if msg := c05compareAll(p, chA, allC, root); msg != "" {
+							return core.Outcome{Class: "diff", Sample: sample, Viol: &core.Violation{Key: "wrong-flattening:" + attrKeyOf(msg) + ":absolute-file-reference", Msg: id + ": " + msg}}
+						}
+						return core.Outcome{Class: id, Sample: sample}
+					})
+				}
+				// order independence: permutations of declaration order x uniform rotations (all attributes everywhere)
 				var perms [][]int
 				permute(L+1, func(pm []int) { perms = append(perms, append([]int{}, pm...)) })
 				for pi, pm := range perms {
